@@ -20,6 +20,18 @@ CLAIMED = {
      technique='deterministic simulation: seeded reset keys and adversarial action schedules (uniform, bang-bang, held, chatter, zero-then-bang) with auto-reset boundaries inside the history; per-step on-device safety invariants; cross-process replay digests and duplicate-member determinism',
      text='All 11 registered physics environments on every native backend they accept are driven through training.wrap for 200-1000 wrapped steps in batches of 8-128; after every step all observations, rewards, done flags, q, qd, link poses and velocities must be finite and link quaternions unit; shapes match the declared sizes; done=0 at reset; the same genome re-executed in another process and a duplicated member must give bit-identical results. Sampled exploration, float32 (the precision the bundled envs run in).',
      note='Trusted: XLA CPU with pinned flags. mjx backend not exercised. Unit-quaternion tolerance 2e-6 in float32.'),
+  'C04': dict(engine='c04', design='5/C04',
+     technique='deterministic simulation: seeded worlds (generated free-rooted forests, two- and three-body collision scenes, rest scenes) stepped as vmapped lanes with seeded control schedules and kick/spin/displace disturbances injected through pipeline.init; conservation invariant evaluated after every step',
+     text='Generated models are loaded with the real mjcf loader and stepped by the real spring and positional pipelines for 1-200 steps under seeded control schedules (random, bang-bang, held, beyond range, unstable gains) and re-initialisation kicks; after every step total linear momentum must have changed by exactly M g dt (1e-9 relative in float64). Rest scenes: all three pipelines, q inside limits, no gravity/control/contact, must stay at rest. Sampled exploration; known defect (per-link impulse averaging with >= 3 bodies in contact) is listed in known_findings.json.',
+     note='Trusted: harness arithmetic on public state fields (mass, xd_i.vel). float32 runs are a gross-error net only (5e-3).'),
+  'C06': dict(engine='c06', design='5/C06',
+     technique='deterministic simulation: lock-step twin worlds (collisions disabled / limits removed) under seeded states, controls and workload classes (far, near-approach, grazing, approach-to-limit) with a harness-computed geometric guard; primitive drop/push/rebound histories with per-step invariants',
+     text='Twin worlds are stepped in lock-step by the real pipelines and compared step by step while a conservative separation / inside-limits guard computed by the harness (closed-form support heights, bounding spheres, range margins) holds; penetrating primitives must never be displaced further into the ground; dropped spheres, flat boxes and lying capsules must not sink more than 6 cm and must settle at the analytic height (every step of a 3 s history at dt = 1 ms); sphere rebound ratio within the margins stated in the property. Sampled exploration.',
+     note='Trusted: harness geometry (cross-checked against brute-force corners). Thresholds for resting from a calibration sweep; dt = 1 ms only.'),
+  'C07': dict(engine='c07', design='5/C07',
+     technique='deterministic simulation: batch members as parties; seeded neighbour fault schedules (different values, NaN, Inf, huge, permuted order, terminating every step) against an unchanged victim member, bitwise comparison of the victim trajectory; batched vs solo and jit vs eager with a perturbation-based continuity filter',
+     text='The three pipelines under vmap/jit, VmapWrapper/EpisodeWrapper/AutoResetWrapper over a scripted env and over real bundled envs, and the domain-randomisation wrapper are executed twice with the victim member unchanged and every other member changed or poisoned: the victim trajectory (10-40 steps across auto-reset boundaries) must be bit-identical. Batched step vs solo step (re-synchronised each step) and jit vs eager agree to 1e-7 (float64) wherever the step is continuous (multi-perturbation filter). Sampled exploration.',
+     note='Trusted: XLA CPU determinism with pinned flags; ScriptEnv stub in the *_script modes. Batch-vs-solo of wrapped real envs runs in float32 on spring/positional with tolerance 5e-4.'),
 }
 
 NA = {
